@@ -48,28 +48,27 @@ def faultHits (fault : Fault) (lp lc pp pc : Nat) : Bool :=
 /-- a role is stored as a list key (type byte + value): bbolt refuses keys above its key size -/
 def keyRejected (f : PFields) : Bool := f.roles.any (fun r => r.utf8ByteSize + 1 > maxKeySize)
 
-/-- name: non-nullable unique index — when the name is new for this entity it must be non-empty, fit
-    in a key and not be taken (`old` = stored fields, none on create) -/
-def nameRejected (db : Db) (id : String) (old : Option PFields) (f : PFields) : Bool :=
-  (old.isNone || old.map (·.name) != some f.name) &&
+/-- name: non-nullable unique index — a create (from scratch, or of child data over an existing plain
+    parent entity) always writes its entry, an update only when the name changes: the name must then be
+    non-empty, fit in a key and not be taken by another entity (`old` = stored parent fields, if any) -/
+def nameRejected (isCreate : Bool) (db : Db) (id : String) (old : Option PFields) (f : PFields) : Bool :=
+  (isCreate || old.map (·.name) != some f.name) &&
     (f.name == "" || f.name.utf8ByteSize > maxKeySize
-      || db.any (fun p => p.2.f.name == f.name && (old.isNone || !(p.1 == id))))
+      || db.any (fun p => p.2.f.name == f.name && !(p.1 == id)))
 
 /-- roles: set index — an empty element would need an index bucket with an empty name -/
 def rolesRejected (old : Option PFields) (f : PFields) : Bool :=
-  (match old with
-    | none => !(normRoles f.roles).isEmpty
-    | some o => o.roles != normRoles f.roles) && (normRoles f.roles).contains ""
+  ((old.map (·.roles)).getD [] != normRoles f.roles) && (normRoles f.roles).contains ""
 
 /-- ref: nullable fk index — old and new target must exist -/
-def refRejected (dbAfter : Db) (old : Option PFields) (f : PFields) : Bool :=
-  (old.isNone || refBytes (old.bind (·.ref)) != refBytes f.ref) &&
-    ((old.isSome && refBytes (old.bind (·.ref)) != "" && (dbAfter.get (refBytes (old.bind (·.ref)))).isNone)
+def refRejected (isCreate : Bool) (dbAfter : Db) (old : Option PFields) (f : PFields) : Bool :=
+  (isCreate || refBytes (old.bind (·.ref)) != refBytes f.ref) &&
+    ((refBytes (old.bind (·.ref)) != "" && (dbAfter.get (refBytes (old.bind (·.ref)))).isNone)
       || (refBytes f.ref != "" && (dbAfter.get (refBytes f.ref)).isNone))
 
 /-- storage and index rules for writing fields `f` to entity `id` -/
-def writeRejected (db dbAfter : Db) (id : String) (old : Option PFields) (f : PFields) : Bool :=
-  keyRejected f || nameRejected db id old f || rolesRejected old f || refRejected dbAfter old f
+def writeRejected (isCreate : Bool) (db dbAfter : Db) (id : String) (old : Option PFields) (f : PFields) : Bool :=
+  keyRejected f || nameRejected isCreate db id old f || rolesRejected old f || refRejected isCreate dbAfter old f
 
 structure Verdict where
   accepted : Bool
@@ -105,14 +104,26 @@ def writeFlows (σe : StoreId) (k : Kind) (db db' : Db) (id : String) : List Flo
   | .C => [{ store := .P, kind := k, id := id, initial := init .P, final := fin .P, parentEvent := true },
            { store := .C, kind := k, id := id, initial := init .C, final := fin .C, parentEvent := false }]
 
+/-- the parent fields a create replaces: those of an existing plain parent entity, when child data is
+    created over it through the child store (legal: the child store only looks at its own data) -/
+def createOld (σ : StoreId) (db : Db) (id : String) : Option PFields :=
+  match σ with
+  | .P => none
+  | .C => (db.get id).map (·.f)
+
+/-- a create of child data over an existing parent entity first asks the parent store's index-stage
+    constraints "before update" -/
+def createOverVetoed (env : Env) (σ : StoreId) (db : Db) (id : String) : Bool :=
+  (createOld σ db id).isSome && ixVetoed env .P .beforeUpdate id
+
 def specCreate (env : Env) (fault : Fault) (σ : StoreId) (id : String) (f : PFields) (rank : String) (db : Db) : Verdict :=
   if id = "" || present σ db id then rejectClean db
   else
     -- the parent fields (roles as a set) and, through the child store, the rank
     let db' := db.put id (writtenEnt σ db id f rank)
     let counts : Nat × Nat := match σ with | .P => (1, 0) | .C => (1, 1)
-    if writeRejected db db' id none f || faultHits fault counts.1 counts.2 counts.1 counts.2 then rejectDirty db'
-    else if ixVetoedFor env σ .afterUpdate id then rejectDirty db
+    if writeRejected true db db' id (createOld σ db id) f || faultHits fault counts.1 counts.2 counts.1 counts.2 then rejectDirty db'
+    else if createOverVetoed env σ db id || ixVetoedFor env σ .afterUpdate id then rejectDirty db
     else finish env fault db' (writeFlows σ .created db db' id)
 
 /-- an entity with child data is updated through the child store, whichever store was asked -/
@@ -131,7 +142,7 @@ def specUpdate (env : Env) (fault : Fault) (σ : StoreId) (id : String) (f : PFi
       -- the parent store leaves the rank alone
       let db' := db.put id (writtenEnt σ db id f rank)
       let counts : Nat × Nat × Nat × Nat := match σe with | .P => (2, 0, 1, 0) | .C => (2, 2, 1, 1)
-      if writeRejected db db' id old f || faultHits fault counts.1 counts.2.1 counts.2.2.1 counts.2.2.2 then rejectDirty db'
+      if writeRejected false db db' id old f || faultHits fault counts.1 counts.2.1 counts.2.2.1 counts.2.2.2 then rejectDirty db'
       else if ixVetoedFor env σe .beforeUpdate id || ixVetoedFor env σe .afterUpdate id then rejectDirty db
       else finish env fault db' (writeFlows σe .updated db db' id)
 
